@@ -1276,4 +1276,7 @@ func noLockAcrossPeerRule(c *Ctx, pr *PropertyRun, prop string) {
 		}
 	}
 	r.RequireRole("library-function")
+	if p.Control {
+		r.ExpectControl("lock-across-peer|webdav.zzVerifControlLocked")
+	}
 }
